@@ -320,6 +320,8 @@ theorem C10_verifyBlock_yield_rule (env : Env) (cfg : Cfg) (l : Ledger) (b : Blo
   · cases h
   split at h
   · cases h
+  split at h
+  · cases h
   · rename_i hv
     exact C10_verifyTxs_yield_rule env cfg l b prevTs b.txs false 0 0 _ hv
 
